@@ -1157,7 +1157,10 @@ class Gen:
         if cause == 'datatype_change':
             if not reps:
                 return None
-            return {'k': 'datatype', 'p': path + [['fld', idx, 0, 0]], 'dt': rng.choice(['CX', 'ST', 'XPN', 'NM', 'CE', 'HD']),
+            if self.mixname == 'c04':
+                # a refused datatype change leaves the verdict as it was
+                self.pending.append({'k': 'validate', 'variant': 'errors', 'p': []})
+            return {'k': 'datatype', 'p': path + [['fld', idx, 0, 0]], 'dt': rng.choice(['CX', 'ST', 'XPN', 'NM', 'CE', 'HD', 'SI', 'ID', 'DT']),
                     'bad': 'datatype_change'}
         if cause == 'other_segment_text':
             other = rng.choice([s for s in SEG_POOL if s != seg_name and T.seg_fields(self.version, s)] or ['PV1'])
